@@ -9,6 +9,9 @@ import NeoModel.Proofs.ExecSim
 import NeoModel.Proofs.ExecSpec
 import NeoModel.Proofs.ExecFacts
 import NeoModel.Proofs.ExecFrame
+import NeoModel.Proofs.ExecSimK
+import NeoModel.Proofs.ExecNoDev
+import NeoModel.Proofs.ExecCache
 namespace NeoModel.Exec
 
 deriving instance DecidableEq for Outcome
@@ -81,6 +84,85 @@ theorem impl_refines_spec_fails : ∃ pre t, (implRun pre t).eff ≠ (specRun pr
 example : (implRun [] finallyCallWitness).eff = (true, [.set (0, 3) 4], [(0, 8)]) := by decide
 example : (specRun [] finallyCallWitness).eff = (true, [.set (0, 3) 4, .set (1, 3) 3], [(1, 7), (0, 8)]) := by decide
 
+/-! ### 1b. The exclusion narrowed to exactly the known finding's shape
+
+`spK`/`specKRun` is the specification with ONE rule changed: a callee that has its own DAO layer
+(or a native payment callback) and completes normally while an exception is pending is not
+committed — the commit rule of `unloadContext`. Its second component tells whether that rule was
+ever applied in the run. The implementation model equals it for EVERY tree, and it equals the
+transactional specification whenever the rule was not applied. So the only trees on which the
+code as written deviates from the transactional specification are those whose run applies that
+rule: known finding `finally-call-rollback`, nothing else. -/
+
+/-- for EVERY pre-state and EVERY tree. -/
+theorem impl_refines_specK (pre : Log) (t : Tree) : (implRun pre t).eff = (specKRun pre t).1.eff := by
+  have hR : RK ⟨[], [pre], [], false⟩ ⟨pre, [], false, false⟩ := ⟨by simp [ISt.view, flatten, KSt.st], rfl, rfl⟩
+  have h := simK t rootCtx ⟨[], [pre], [], false⟩ ⟨pre, [], false, false⟩ hR
+  unfold implRun specKRun
+  simp only [rootCtx] at h
+  cases hr : im t rootCtx ⟨[], [pre], [], false⟩ with
+  | norm s' =>
+    simp only [rootCtx] at hr
+    rw [hr] at h
+    obtain ⟨K', e1, e2, _⟩ := h
+    simp only [entryId] at e1 ⊢
+    rw [e1]
+    have h1 : s'.view = K'.σ := e2.1
+    have h2 : s'.ev = K'.ev := e2.2.1
+    simp [Outcome.eff, h1, h2]
+  | thrown s' =>
+    simp only [rootCtx] at hr
+    rw [hr] at h
+    exact absurd h.1 (by simp)
+  | fault s' =>
+    simp only [rootCtx] at hr
+    rw [hr] at h
+    simp only [entryId] at h ⊢
+    rcases h with ⟨K', e1⟩ | ⟨_, K', e1⟩ <;> rw [e1] <;> simp [Outcome.eff]
+
+/-- the deviating rule not applied => `spK` is the transactional specification. -/
+theorem specK_exact (pre : Log) (t : Tree) (hd : (specKRun pre t).2 = false) :
+    (specKRun pre t).1.eff = (specRun pre t).eff := by
+  have h := nodev t entryId Flags.all false ⟨pre, [], false, false⟩
+  unfold NoDev at h
+  unfold specKRun at hd ⊢
+  unfold specRun
+  cases hr : spK t entryId Flags.all false ⟨pre, [], false, false⟩ with
+  | norm s =>
+    rw [hr] at h hd
+    simp only [Res.st, Res.map, KSt.st] at h hd
+    obtain ⟨_, h2⟩ := h hd
+    rw [h2]
+  | thrown s =>
+    rw [hr] at h hd
+    simp only [Res.st, Res.map, KSt.st] at h hd
+    obtain ⟨_, h2⟩ := h hd
+    rw [h2]
+  | fault s =>
+    rw [hr] at h hd
+    simp only [Res.st, Res.map, KSt.st] at h hd
+    obtain ⟨_, h2⟩ := h hd
+    rw [h2]
+
+/-- the refinement theorem with the exclusion narrowed to the known shape (a dynamic condition on
+    the run, decidable by running `specKRun`). -/
+theorem impl_refines_spec_unless_finally_commit (pre : Log) (t : Tree) (hd : (specKRun pre t).2 = false) :
+    (implRun pre t).eff = (specRun pre t).eff := by
+  rw [impl_refines_specK, specK_exact pre t hd]
+
+/-- a call inside a finally block that runs on the NORMAL path is not `safe`, but the deviating rule
+    is not applied, so the narrowed theorem covers it; on `finallyCallWitness` the rule is applied. -/
+def finallyNormalPath : Tree :=
+  .call 0 Flags.all (.try_ (.put 0 1) true .skip true (.seq (.call 1 Flags.all (.seq (.put 1 1) (.notify 3)))
+    (.native (.transfer 0 1 2 true) Flags.all (.put 2 2))))
+
+example : safe finallyNormalPath = false := by decide
+example : (specKRun [.set (gasTab, 0) 5] finallyNormalPath).2 = false := by decide
+example : (implRun [.set (gasTab, 0) 5] finallyNormalPath).eff = (specRun [.set (gasTab, 0) 5] finallyNormalPath).eff :=
+  impl_refines_spec_unless_finally_commit _ _ (by decide)
+example : (specKRun [] finallyCallWitness).2 = true := by decide
+example : (implRun [] finallyCallWitness).eff = (specKRun [] finallyCallWitness).1.eff := impl_refines_specK _ _
+
 /-- The replay of the defect this check found and /repo fixed in db399c7 (a call made from a CATCH
     block whose TRY also has a FINALLY was not isolated in a layer, so the finally block ran on the
     failed callee's writes and aborted): the tree is `safe`, so the theorem now covers it. With the
@@ -149,10 +231,10 @@ example : (implRun demoPre demoTree).halt = true := by
     setting and notification of the callee is undone, `a` (before) and `cat`, `d` (after) are kept.
     `hthrow` says that the callee throws on the state `a` leaves (in the specification, where a
     callee is just a function of the caller's state). -/
-theorem catch_rolls_back_callee (pre : Log) (c0 c1 : Nat) (fl0 fl1 : Flags) (a body cat d : Tree)
+theorem catch_rolls_back_callee (pre : Log) (c0 c1 : Nat) (fl0 fl1 : Flags) (a body cat d : Tree) (Sa S' : St)
     (hs : safe (.call c0 fl0 (.seq a (.seq (.try_ (.call c1 fl1 body) true cat false .skip) d))) = true)
-    (hf : ((Flags.all.and fl0).r && (Flags.all.and fl0).c) = true)
-    (Sa S' : St) (ha : sp a c0 (Flags.all.and fl0) ⟨pre, [], false⟩ = .norm Sa)
+    (hf : ((Flags.all.and fl0).r && (Flags.all.and fl0).c && alive Sa.σ.get c1) = true)
+    (ha : sp a c0 (Flags.all.and fl0) ⟨pre, [], false⟩ = .norm Sa)
     (hthrow : sp body c1 ((Flags.all.and fl0).and fl1) Sa = .thrown S') :
     (implRun pre (.call c0 fl0 (.seq a (.seq (.try_ (.call c1 fl1 body) true cat false .skip) d)))).eff =
       (implRun pre (.call c0 fl0 (.seq a (.seq cat d)))).eff := by
@@ -172,20 +254,21 @@ theorem catch_rolls_back_callee (pre : Log) (c0 c1 : Nat) (fl0 fl1 : Flags) (a b
 
 /-- The same, with the kept effects spelled out: the final ledger state and notification list are
     those of `a`, then `cat`, then `d`, computed without the failed callee. -/
-theorem before_after_kept (pre : Log) (c0 c1 : Nat) (fl0 fl1 : Flags) (a body cat d : Tree)
+theorem before_after_kept (pre : Log) (c0 c1 : Nat) (fl0 fl1 : Flags) (a body cat d : Tree) (Sa S' Sc Sd : St)
     (hs : safe (.call c0 fl0 (.seq a (.seq (.try_ (.call c1 fl1 body) true cat false .skip) d))) = true)
-    (hf : ((Flags.all.and fl0).r && (Flags.all.and fl0).c) = true)
-    (Sa S' Sc Sd : St) (ha : sp a c0 (Flags.all.and fl0) ⟨pre, [], false⟩ = .norm Sa)
+    (hf : ((Flags.all.and fl0).r && (Flags.all.and fl0).c && alive Sa.σ.get c1) = true)
+    (h0 : alive pre.get c0 = true)
+    (ha : sp a c0 (Flags.all.and fl0) ⟨pre, [], false⟩ = .norm Sa)
     (hthrow : sp body c1 ((Flags.all.and fl0).and fl1) Sa = .thrown S')
     (hcat : sp cat c0 (Flags.all.and fl0) Sa = .norm Sc) (hd : sp d c0 (Flags.all.and fl0) Sc = .norm Sd) :
     (implRun pre (.call c0 fl0 (.seq a (.seq (.try_ (.call c1 fl1 body) true cat false .skip) d)))).eff =
       (true, Sd.σ, Sd.ev) := by
-  rw [catch_rolls_back_callee pre c0 c1 fl0 fl1 a body cat d hs hf Sa S' ha hthrow]
+  rw [catch_rolls_back_callee pre c0 c1 fl0 fl1 a body cat d Sa S' hs hf ha hthrow]
   have hs2 : safe (.call c0 fl0 (.seq a (.seq cat d))) = true := by
     simp only [safe, Bool.and_eq_true] at hs ⊢
     exact ⟨hs.1, hs.2.1.1.1.2, hs.2.2⟩
   apply halt_applies_all _ _ hs2
-  apply sp_call_norm rfl
+  apply sp_call_norm (by simpa [Flags.all] using h0)
   rw [sp_seq_norm ha, sp_seq_norm hcat]
   exact hd
 
@@ -197,13 +280,13 @@ example :
       (.seq (.call 2 Flags.all (.put 0 9)) .throw)))
     (implRun demoPre (.call 0 Flags.all (.seq a (.seq (.try_ (.call 1 Flags.all body) true (.notify 3) false .skip) (.put 2 2))))).eff =
       (true, [.set (0, 2) 2, .set (0, 1) 2] ++ demoPre, [(0, 1), (0, 3)]) :=
-  before_after_kept demoPre 0 1 Flags.all Flags.all _ _ _ _ (by decide) rfl
+  before_after_kept demoPre 0 1 Flags.all Flags.all _ _ _ _
     ⟨.set (0, 1) 2 :: demoPre, [(0, 1)], false⟩
     ⟨[.set (2, 0) 9, .set (2, 0) 7, .set (gasTab, 2) 3, .set (gasTab, 1) 7, .set (1, 1) 3, .set (0, 1) 2] ++ demoPre,
       [(0, 1), (1, 2), (gasTab, 3)], true⟩
     ⟨.set (0, 1) 2 :: demoPre, [(0, 1), (0, 3)], false⟩
     ⟨[.set (0, 2) 2, .set (0, 1) 2] ++ demoPre, [(0, 1), (0, 3)], false⟩
-    rfl rfl rfl rfl
+    (by decide) rfl rfl rfl rfl rfl rfl
 
 /-! ### 3b. The same guarantee for EVERY tree, stated on the implementation model alone -/
 
@@ -253,6 +336,66 @@ example :
     let body : Tree := .seq (.put 1 3) (.seq (.notify 2) (.seq (.native (.transfer 0 7 3 false) Flags.all .skip)
       (.seq (.call 2 Flags.all (.put 0 9)) .throw)))
     im (.call 1 Flags.all body) ⟨0, Flags.all, true, true⟩ s = .thrown { s with exc := true } := rfl
+
+/-! ### 3c. Native caches are copy-on-write over the DAO layers (DESIGN C04.4)
+
+Heap model `CStack` of dao.go (`GetPrivate`, `getCache`, `persistNativeCache`): cache objects are
+cells, layers hold references. Assumption (stated, tied by the harness): a native's `Copy()`
+returns a cell that shares nothing with the original. -/
+
+/-- A layer is made, caches are updated through it any number of times, the layer is dropped:
+    every cache shows exactly what it showed before (no update leaked into a cell reachable from a
+    surviving layer) and no two (layer, native) slots alias. For every stack and update sequence. -/
+theorem native_cache_cow (st : CStack) (hi : st.inv) (ws : List (Nat × Nat)) :
+    (st.push.writes ws).inv ∧ ∀ id, (st.push.writes ws).drop.read id = st.read id :=
+  cache_cow st hi ws
+
+/-- ... and if the layer is persisted instead, every cache keeps showing what ic.DAO showed. -/
+theorem native_cache_persist (st : CStack) (hi : st.inv) :
+    st.persist.inv ∧ ∀ id, st.persist.read id = st.read id :=
+  cache_persist st hi
+
+-- non-vacuity: three layers (block cache with Policy=11 and NEO=22; a transaction layer that already
+-- copied Policy; a wrapped callee's layer), updates of both natives in the callee, then drop / persist
+def demoCaches : CStack := ⟨fun r => if r = 0 then 11 else if r = 1 then 22 else if r = 2 then 33 else 0, 3,
+  [[], [(7, 2)], [(7, 0), (5, 1)]]⟩
+example : demoCaches.inv := by
+  unfold CStack.inv CInv demoCaches; decide
+example : (demoCaches.writes [(7, 40), (5, 50), (7, 41)]).read 7 = some 41 := by decide
+example : (demoCaches.writes [(7, 40), (5, 50), (7, 41)]).drop.read 7 = some 33 ∧
+    (demoCaches.writes [(7, 40), (5, 50), (7, 41)]).drop.read 5 = some 22 := by decide
+example : (demoCaches.writes [(7, 40), (5, 50)]).persist.read 5 = some 50 := by decide
+
+/-! ### 3d. Transactions of a block are isolated from their predecessors -/
+
+/-- Whatever a previous transaction of the block left in the reused VM and its interop context —
+    layers still pushed after an unhandled THROW, a pending exception, notifications, after ABORT or
+    running out of gas at any point — the block's result is the same as on a fresh VM. -/
+theorem tx_isolated_in_block (left : ISt) (σ : Log) (txs : List Tx) :
+    blockRunVM left σ txs = blockRun σ txs := by
+  unfold blockRunVM blockRun execAll
+  generalize burnAll σ txs = σ0
+  induction txs generalizing left σ0 with
+  | nil => rfl
+  | cons tx rest ih =>
+    simp only [List.foldl_cons]
+    have : (stepTxVM (σ0, left) tx).1 = stepTx σ0 tx := by
+      unfold stepTxVM stepTx implRun txStart
+      cases im tx.tree rootCtx ⟨[], [σ0], [], false⟩ <;> rfl
+    rw [← this]
+    exact ih (stepTxVM (σ0, left) tx).2 (stepTxVM (σ0, left) tx).1
+
+/-- the reset of the pending-exception register is load-bearing: without it a transaction that
+    halts on a fresh VM faults after a predecessor that died with an unhandled exception. -/
+theorem exc_reset_needed : ∃ (left : ISt) (σ : Log) (t : Tree),
+    (match im t rootCtx (txStart left σ) with | .norm _ => true | _ => false) = true ∧
+    (match im t rootCtx (txStartNoReset left σ) with | .norm _ => true | _ => false) = false :=
+  ⟨⟨[], [], [], true⟩, [], .try_ (.call 0 Flags.all (.put 1 1)) false .skip true .skip, by decide⟩
+
+-- non-vacuity of tx_isolated_in_block: the leftover of a transaction that died in a callee's callee
+example : blockRunVM ⟨[.set (1, 1) 9], [[.set (0, 0) 9], []], [(0, 1)], true⟩ [.set (gasTab, senderAcc) 100]
+    [⟨3, .call 0 Flags.all (.put 1 1)⟩] = blockRun [.set (gasTab, senderAcc) 100] [⟨3, .call 0 Flags.all (.put 1 1)⟩] :=
+  tx_isolated_in_block _ _ _
 
 /-! ### 4. The facts the model contains literally, re-read from the source on every run -/
 
